@@ -1,0 +1,196 @@
+//go:build verif
+// +build verif
+
+package leveldb
+
+import (
+	"errors"
+	"sync/atomic"
+
+	"github.com/syndtr/goleveldb/leveldb/comparer"
+	"github.com/syndtr/goleveldb/leveldb/storage"
+)
+
+// Verification hooks and exports (build tag "verif"). Nothing in this file is
+// compiled into a normal build.
+
+// Yield points.
+const (
+	VerifYGetSeq         = 1  // DB.get/has: sequence fixed, buffers not yet taken
+	VerifYGetMems        = 2  // DB.get/has: buffers searched, version not yet taken
+	VerifYIterSeq        = 3  // newRawIterator: sequence fixed, buffers not yet taken
+	VerifYIterMems       = 4  // newRawIterator: buffers taken, version not yet taken
+	VerifYWriteInserted  = 5  // writeLocked: group inserted, sequence not yet advanced
+	VerifYWritePublished = 6  // writeLocked: sequence advanced, lock not yet released
+	VerifYFlushCommitted = 7  // memCompaction: manifest commit done, frozen buffer not yet dropped
+	VerifYTrCommitted    = 8  // Transaction.Commit: manifest commit done, sequence not yet published
+	VerifYSetVersion     = 9  // session.setVersion: about to install a version
+	VerifYMergeLoop      = 10 // writeLocked: inside the merge loop, before polling for a request
+	VerifYBeforeUnlock   = 11 // unlockWrite: before acknowledgements / hand-off / release
+	VerifYBetweenAcks    = 12 // unlockWrite: between two acknowledgements
+)
+
+// Event kinds (write protocol, C10).
+const (
+	VerifELockDirect   = 1  // writer acquired the write lock through writeLockC
+	VerifELockHandoff  = 2  // writer received the lock by hand-off (merge refused)
+	VerifEMergeSent    = 3  // writer's merge request was taken by a leader
+	VerifEMergedYes    = 4  // writer was told "merged"
+	VerifEMergeAccept  = 5  // leader accepts a merge request (before replying true)
+	VerifEMergeOverflw = 6  // leader refuses a merge request (reply deferred)
+	VerifEJournal      = 7  // leader wrote the group's journal record: a=first seq, b=entries, c=1 if error
+	VerifEPublish      = 8  // leader advanced the sequence: a=delta
+	VerifEAckSend      = 9  // leader is about to send one acknowledgement: c=1 if error
+	VerifEHandoffSend  = 10 // leader is about to hand the lock to the refused writer
+	VerifERelease      = 11 // leader is about to release the write lock
+	VerifEVersion      = 12 // a version is being installed: a=version id
+	VerifELeaderStart  = 13 // writeLocked entered: a=batch internal length
+	VerifELeaderEnd    = 14 // writeLocked about to return: c=1 if error
+)
+
+type verifHooks struct {
+	yield func(p int)
+	event func(k int, a, b, c uint64)
+}
+
+var verifH atomic.Value // *verifHooks
+
+// SetVerifHooks installs (or, with nils, removes) the callbacks. The callbacks
+// run on the goroutine that reached the point.
+func SetVerifHooks(yield func(p int), event func(k int, a, b, c uint64)) {
+	verifH.Store(&verifHooks{yield: yield, event: event})
+}
+
+func verifYield(p int) {
+	if h, _ := verifH.Load().(*verifHooks); h != nil && h.yield != nil {
+		h.yield(p)
+	}
+}
+
+func verifEvent(k int, a, b, c uint64) {
+	if h, _ := verifH.Load().(*verifHooks); h != nil && h.event != nil {
+		h.event(k, a, b, c)
+	}
+}
+
+// VerifTable is the metadata of one live table.
+type VerifTable struct {
+	Level      int
+	Num        int64
+	Size       int64
+	IMin, IMax []byte
+}
+
+// VerifVersion is a pinned version.
+type VerifVersion struct {
+	ID     int64
+	Levels [][]VerifTable
+	Seq    uint64
+	MinSeq uint64
+}
+
+// VerifPinVersion pins the current version (so its files stay alive) and
+// returns its exact table metadata. release must be called exactly once.
+func VerifPinVersion(db *DB) (vv VerifVersion, release func(), err error) {
+	if err = db.ok(); err != nil {
+		return
+	}
+	v := db.s.version()
+	vv.ID = v.id
+	vv.Seq = db.getSeq()
+	vv.MinSeq = db.minSeq()
+	vv.Levels = make([][]VerifTable, len(v.levels))
+	for level, tables := range v.levels {
+		for _, t := range tables {
+			vv.Levels[level] = append(vv.Levels[level], VerifTable{
+				Level: level, Num: t.fd.Num, Size: t.size,
+				IMin: append([]byte(nil), t.imin...), IMax: append([]byte(nil), t.imax...),
+			})
+		}
+	}
+	vr := &versionReleaser{v: v}
+	return vv, vr.Release, nil
+}
+
+// ErrVerifNotSettling is returned by VerifBarrier when background work keeps
+// being needed.
+var ErrVerifNotSettling = errors.New("leveldb/verif: background work does not settle")
+
+// VerifBarrier waits until there is no frozen buffer and no table compaction
+// is needed, using round trips through both compaction command channels and
+// the reference loop.
+func VerifBarrier(db *DB) error {
+	for i := 0; i < 100000; i++ {
+		if err := db.ok(); err != nil {
+			return err
+		}
+		if err := db.compTriggerWait(db.mcompCmdC); err != nil {
+			return err
+		}
+		// A range request for a level that does not exist is a no-op round trip.
+		if err := db.compTriggerRange(db.tcompCmdC, 1<<30, nil, nil); err != nil {
+			return err
+		}
+		frozen := false
+		if fm := db.getFrozenMem(); fm != nil {
+			frozen = true
+			fm.decref()
+		}
+		if !frozen && !db.tableNeedCompaction() {
+			VerifFileRefs(db)
+			return nil
+		}
+	}
+	return ErrVerifNotSettling
+}
+
+// VerifFileRefs returns the reference loop's table reference counts (a round
+// trip through the loop, so every earlier release has been processed).
+func VerifFileRefs(db *DB) map[int64]int {
+	ch := make(chan map[int64]int, 1)
+	select {
+	case db.s.fileRefCh <- ch:
+		return <-ch
+	case <-db.s.closeC:
+		return nil
+	}
+}
+
+// VerifState reports the buffer / journal bookkeeping under the DB's own lock.
+func VerifState(db *DB) (hasFrozen bool, memLen int, journalNum, frozenJournalNum int64, seq uint64) {
+	db.memMu.RLock()
+	defer db.memMu.RUnlock()
+	hasFrozen = db.frozenMem != nil
+	if db.mem != nil && db.mem.DB != nil {
+		memLen = db.mem.Len()
+	}
+	return hasFrozen, memLen, db.journalFd.Num, db.frozenJournalFd.Num, db.getSeq()
+}
+
+// VerifManifestNum returns the number of the current manifest file.
+func VerifManifestNum(db *DB) int64 {
+	db.s.vmu.Lock()
+	defer db.s.vmu.Unlock()
+	return db.s.manifestFd.Num
+}
+
+// VerifInternalComparer returns the internal-key comparer built over ucmp.
+func VerifInternalComparer(ucmp comparer.Comparer) comparer.Comparer {
+	return &iComparer{ucmp: ucmp}
+}
+
+// VerifMakeInternalKey builds an internal key (kt: 0 = deletion, 1 = value).
+func VerifMakeInternalKey(ukey []byte, seq uint64, kt uint) []byte {
+	return makeInternalKey(nil, ukey, seq, keyType(kt))
+}
+
+// VerifParseInternalKey splits an internal key.
+func VerifParseInternalKey(ik []byte) (ukey []byte, seq uint64, kt uint, err error) {
+	u, s, k, e := parseInternalKey(ik)
+	return u, s, uint(k), e
+}
+
+// VerifKeyMaxSeq is the largest sequence number.
+const VerifKeyMaxSeq = keyMaxSeq
+
+var _ = storage.TypeTable
